@@ -177,7 +177,40 @@ def make_sim(rebound, cfg):
     sim.dt_last_done = cfg["dt"]
     sim.rand_seed = cfg["seed"]
     sim.N_active = cfg.get("nact", -1)
+    if cfg.get("hybrid"):
+        set_hybrid(sim, *cfg["hybrid"])
     return sim
+
+
+_libc = ctypes.CDLL(None)
+_libc.calloc.restype = ctypes.c_void_p
+_libc.calloc.argtypes = [ctypes.c_size_t, ctypes.c_size_t]
+
+
+def set_hybrid(sim, integrator, mode, emap):
+    """put the simulation in the state reb_collision_search sees inside a MERCURIUS / TRACE step: integrator, mode and encounter
+    map (arrays from the C allocator, so that the library may realloc / free them)"""
+    n = max(sim.N, 1)
+    sim.integrator = integrator
+    arr = ctypes.cast(_libc.calloc(n, 4), ctypes.POINTER(ctypes.c_int))
+    for k, v in enumerate(emap):
+        arr[k] = v
+    if integrator == "mercurius":
+        rim = sim.ri_mercurius
+        rim.mode = mode
+        rim._encounter_map = arr
+        rim._encounter_N = len(emap)
+        rim._encounter_N_active = len(emap)
+        rim._N_allocated = n
+    else:
+        rit = sim.ri_trace
+        rit._mode = mode
+        rit._encounter_map = arr
+        rit._encounter_N = len(emap)
+        rit._encounter_N_active = len(emap)
+        rit._current_Ks = ctypes.cast(_libc.calloc(n * n, 4), ctypes.POINTER(ctypes.c_int))
+        rit._N_allocated = n
+
 
 
 def gb_int(sim, c):
